@@ -69,6 +69,17 @@ def judge(res: Result, case: Dict[str, Any], vals: List[Any], typ, k: int, get_t
             except Exception as e:  # noqa: BLE001
                 res.violate(Violation(ID, "exception", f"shrink_traced_types:{arm}", dict(case, order=list(order)), f"shrink_traced_types raised {e!r}"))
                 return
+            # calls with the SAME argument type that differ only in what they returned / yielded
+            same_arg = [CallTrace(S.genfunc, {"n": int}, types[i], types[i]) for i in order]
+            try:
+                _a2, ret2, yld2 = shrink_traced_types(same_arg, k)
+            except Exception as e:  # noqa: BLE001
+                res.violate(Violation(ID, "exception", f"shrink_traced_types:{arm}", dict(case, order=list(order)), f"shrink_traced_types raised {e!r}"))
+                return
+            for label2, TT2 in (("return", ret2), ("yield", yld2)):
+                if TT2 is None or any(not O.member(v, TT2) for v in vals) or O.struct(TT2) != ref[0]:
+                    res.violate(Violation(ID, "nonmember", f"traces-same-arguments:{label2}:{arm}", dict(case, order=list(order)), f"calls with one argument type and different results: merged {label2} type is {O.show(TT2) if TT2 is not None else None}, the direct merge is {O.show(ref[1])}"))
+                    return
             # the yield type as the tracer accumulates it: one call that yields the values one after the other
             one_call = CallTrace(S.genfunc, {"n": types[order[0]]}, None, None)
             for i in order:
